@@ -101,8 +101,12 @@ def gen_c03src():
             'Projecter: impossible observation = bare reward share')
     E.find1(r'projections\[o\]\.emplace_back\(\s*vproj\s*\*\s*discount_\s*\+\s*immediateRewards_\.row\(a\)\.transpose\(\)\s*,\s*a\s*,\s*VObs\(1,\s*i\)\s*\)\s*;', pj,
             'Projecter: projection = discount * T (O . v) + reward share')
-    E.find1(r'if\s*\(\s*checkDifferentSmall\(\s*model_\.getObservationProbability\(s,\s*a,\s*o\)\s*,\s*0\.0\s*\)\s*\)\s*\{\s*possibleObservations_\[a\]\[o\]\s*=\s*true\s*;\s*break\s*;', pj,
-            'Projecter: possible observation = some successor with probability above equalToleranceSmall')
+    if re.search(r'if\s*\(\s*checkDifferentSmall\(\s*model_\.getObservationProbability\(s,\s*a,\s*o\)\s*,\s*0\.0\s*\)\s*\)\s*\{\s*possibleObservations_\[a\]\[o\]\s*=\s*true\s*;\s*break\s*;', pj):
+        proj_obs_cut = True         # possible = some successor with probability above equalToleranceSmall
+    elif re.search(r'if\s*\(\s*model_\.getObservationProbability\(s,\s*a,\s*o\)\s*>\s*0\.0\s*\)\s*\{\s*possibleObservations_\[a\]\[o\]\s*=\s*true\s*;\s*break\s*;', pj):
+        proj_obs_cut = False        # possible = some successor with positive probability
+    else:
+        raise E.ExtractError('Projecter::computePossibleObservations: test not recognised')
 
     p = flat(PERSEUS)
     E.find1(r'v\[0\]\[0\]\.values\.fill\(\s*minReward\s*/\s*\(\s*1\.0\s*-\s*model\.getDiscount\(\)\s*\)\s*\)\s*;', p, 'PERSEUS start')
@@ -123,6 +127,8 @@ def consSkips : Bool := {bb(cons_skips)}
 def gapminWeightCut : Bool := {bb(gap_weight_cut)}
 /-- {GAPMIN} makeNewPomdp: the row of a successor whose mass is `<= equalToleranceSmall` is left empty -/
 def gapminMassCut : Bool := {bb(gap_mass_cut)}
+/-- Projecter::computePossibleObservations: an (action, observation) pair counts as possible only if some successor has probability ABOVE equalToleranceSmall (true) / above 0 (false) -/
+def projecterObsCut : Bool := {bb(proj_obs_cut)}
 /-- literal in `std::max(<clamp>, 1.0 - discount)` (same in both files) -/
 def clamp : Rat := {E.lean_rat(blind_clamp)}
 
